@@ -30,7 +30,7 @@ TRUSTED = [
     "LD_PRELOAD recorder and fault injector shim/shim.c (one fault plan per process: the n-th matching write/fsync fails; "
     "short writes are real short writes) and the file-system simulator tools/vlib/crash.py (crash models of C02)",
     "sequential workloads: the commit order is the script order; the interleavings of the commit pipeline are covered by the "
-    "Coq LTS Conc/PipeFail.v (theorems) and one scripted two-thread witness, not by a schedule search",
+    "Coq LTS Conc/PipeFail.v (theorems) and one scripted multi-task regression run (e2 qoverflow), not by a schedule search (that is E3, C05/C17)",
     "std::io::BufWriter<File> is modelled (Crash/Fail.v: write_all / write_all_cold / flush_buf with its BufGuard) and tied to the "
     "code by the writer-level differential only",
 ]
@@ -51,7 +51,6 @@ CLASSES = {
     "vlog_write_error_swallowed": "a value-log write error is swallowed (BufWriter drop at file rotation / deferred flush): the flush succeeds, value pointers reference bytes that were never written",
     "vlog_rotation_without_fsync": "a value-log file that fills up is replaced without fsync (fault-free defect of C02/C03; a failed flush whose retry re-appends the values makes it reachable in workloads whose fault-free run never rotates)",
     "reopen_fails_after_failed_wal_write": "the stale header / dangling fragment a failed append leaves in a segment that is later rotated away makes recovery fail (still corrupted after repair): the store cannot be opened",
-    "commit_queue_overflow_after_failed_commits": "failing commits release their permit before their queue entry is drained; seven of them behind one slow apply overflow the queue: panic",
     "torn_vlog_file_blocks_reopen": "a failed flush leaves a value-log file with a torn header / entry; the next open refuses the directory",
 }
 
@@ -754,6 +753,8 @@ def sweep(wl, name, substr, tier, rng, budget, stats, res, kf, examples):
         return 0
     stats["base_ops"][substr] = stats["base_ops"].get(substr, 0) + len(ops)
     stats["baseline_bad_policies"] += len(skip_pol)
+    if skip_pol:     # nothing is expected here since the value-log rotation is fsynced (C15-N8 fixed): say where
+        stats.setdefault("baseline_bad_at", []).append("%s: %s" % (sorted(skip_pol), wl.show()[:300]))
     plans = fault_plans(ops, substr, tier, rng, budget)
     runs = run_plans(wl, name, substr, plans, skip_pol, stats)
     for plan, w2, out, log, findings, ev in runs:
@@ -1114,32 +1115,38 @@ def confirm_witnesses(ctx, res, kf):
             res["disagreements"].append("witness %s of Props/C15.v is not reproduced by the implementation: verdict %s, expected %s (%s)" % (name, v, want, text[:200]))
         elif cls in kf:
             res["known"].append("class=%s (%s)" % (cls, kf[cls]))
-    # pipeline witness wq_trace (Conc/PipeFail_proofs.v): one commit held inside apply, n failing commits (BatchTooLarge), one more
-    # commit: the model says the queue overflows from n = SLOTS - 1 = 7 on and not before
-    for n, want_panic in ((6, False), (7, True)):
+    # regression of the former finding C15-N9 (Conc/PipeFail_proofs.v wq_trace): one commit held inside apply, n failing commits
+    # (BatchTooLarge) and one more commit, each on its own task.  The model (theorem C15_pipeline_not_poisoned, example
+    # C15_former_overflow_trace) says: no panic for any n; a failing commit cannot return while an older batch is unapplied
+    # (returned_while_blocked = 0); after the slow apply every commit returns its own outcome and the store goes on.
+    for n in (7, 9):
         sc = ["e2 new", "e2 open lc=2,mem=4096", "e2 qoverflow %d 6000" % n, "e2 begin 1 rw", "e2 set 1 61 01", "e2 commit 1", "e2 close"]
-        for attempt in range(3):     # the scenario relies on a 300 ms pause for the slow commit to reach apply: retry under load
-            a = C.run_pairs([sc], sides=("impl",), timeout=120)[0]["impl"][0]
+        for attempt in range(3):     # the scenario relies on 300 ms pauses for the commits to reach their blocking points: retry under load
+            a = C.run_pairs([sc], sides=("impl",), timeout=180)[0]["impl"][0]
             line = a[2] if len(a) > 2 else "<none>"
-            panicked = "PANIC:commit_queue_overflow" in line
-            if panicked == want_panic and "slow_finished_early=false" in line:
+            if "slow_finished_early=false" in line:
                 break
-        out["queue_overflow_n%d" % n] = line[-120:]
-        if "slow_finished_early=false" not in line:
-            out["queue_overflow_n%d" % n] += "  (inconclusive: the slow commit was not held)"
+        out["queue_regression_n%d" % n] = re.sub(r"(err:Other\(Batch_too_large\),?)+", lambda m: "%dxBatchTooLarge " % m.group(0).count("err:"), line)[-160:]
+        rp = "# property=C15\n# regression of C15-N9: one commit held in apply, %d failing commits, one more commit\n" % n + "".join("> %s\n" % l for l in sc) + "# answer: %s\n" % line
+        if "PANIC" in line or "STUCK" in line or line == "<none>":
+            res["violations"].append(("the commit pipeline %s with %d failed commits behind one commit that is still applying: %s" % (
+                "panics" if "PANIC" in line else "does not return", n, line[-300:]), rp))
             continue
-        if panicked != want_panic:
-            res["disagreements"].append("pipeline witness: %d failing commits behind one commit in apply: implementation %s, model Conc/PipeFail.v says %s" % (
-                n, "panics" if panicked else "does not panic", "panic" if want_panic else "no panic"))
-        elif panicked:
-            cls = "commit_queue_overflow_after_failed_commits"
-            if cls in kf:
-                res["known"].append("class=%s (%s)" % (cls, kf[cls]))
-            else:
-                res["violations"].append(("panic inside commit (commit queue overflow) after %d failed commits behind one commit that is still applying: %s" % (n, line[-200:]),
-                                          "# property=C15\n# a commit panics: the store does not keep accepting transactions\n" + "".join("> %s\n" % l for l in sc) + "# answer: %s\n" % line))
-            if len(a) < 6 or a[5] != "ok":
-                res["violations"].append(("after the commit-queue overflow the store no longer accepts a commit: %s" % a[3:], "".join("> %s\n" % l for l in sc)))
+        if "slow_finished_early=false" not in line:
+            out["queue_regression_n%d" % n] += "  (inconclusive: the slow commit was not held)"
+            continue
+        m = re.search(r"returned_while_blocked=(\d+) fails=(\S*) last=(\S+) slow=(\S+)", line)
+        if not m:
+            res["disagreements"].append("pipeline regression: unreadable answer %s" % line[:200])
+            continue
+        fails = [x for x in m.group(2).split(",") if x]
+        if int(m.group(1)) != 0:
+            res["disagreements"].append("pipeline regression: %s of %d failing commits returned while an older batch was still being applied; "
+                                        "the model Conc/PipeFail.v keeps a failing committer waiting (and its permit held) until its entry is dequeued" % (m.group(1), n))
+        if len(fails) != n or any("Batch_too_large" not in x for x in fails) or m.group(3) != "ok" or m.group(4) != "ok":
+            res["violations"].append(("pipeline regression: unexpected commit outcomes %s" % line[-300:], rp))
+        if len(a) < 6 or a[5] != "ok":
+            res["violations"].append(("after %d failed commits behind a slow apply the store no longer accepts a commit: %s" % (n, a[3:]), rp))
     return out
 
 
